@@ -110,7 +110,7 @@ fn u128p(v: u128, it: &mut Item) {
     it.push((v >> 64) as i128);
     it.push((v & 0xffff_ffff_ffff_ffff) as i128);
 }
-const MODELLED_ARCH: [u16; 5] = [0, 10, 9, 5, 12];
+const MODELLED_ARCH: [u16; 10] = [0, 10, 9, 5, 12, 1, 3, 0x8001, 0x8002, 0x8003];
 /// [-3] no system info, [-2] architecture outside the model, [-1] no (valid) context, 1 :: every field
 /// of the parsed context in the documented declaration order (u128 as high, low halves)
 fn context_obs(sys: Option<&MinidumpSystemInfo>, ctx: impl FnOnce(&MinidumpSystemInfo) -> Option<MinidumpContext>, it: &mut Item) {
@@ -176,8 +176,60 @@ fn context_obs(sys: Option<&MinidumpSystemInfo>, ctx: impl FnOnce(&MinidumpSyste
             it.extend(x.wcr.iter().map(|&b| b as i128));
             it.extend(x.wvr.iter().map(|&b| b as i128));
         }
-        _ => {
-            it.push(-777);
+        MinidumpRawContext::OldArm64(x) => {
+            p!(x.context_flags);
+            it.extend(x.iregs.iter().map(|&b| b as i128));
+            p!(x.sp, x.pc, x.cpsr, x.fpsr, x.fpcr);
+            for v in x.float_regs.iter() {
+                u128p(*v, it);
+            }
+        }
+        MinidumpRawContext::Mips(x) => {
+            p!(x.context_flags, x._pad0);
+            it.extend(x.iregs.iter().map(|&b| b as i128));
+            p!(x.mdhi, x.mdlo);
+            it.extend(x.hi.iter().map(|&b| b as i128));
+            it.extend(x.lo.iter().map(|&b| b as i128));
+            p!(x.dsp_control, x._pad1, x.epc, x.badvaddr, x.status, x.cause);
+            it.extend(x.float_save.regs.iter().map(|&b| b as i128));
+            p!(x.float_save.fpcsr, x.float_save.fir);
+        }
+        MinidumpRawContext::Ppc(x) => {
+            p!(x.context_flags, x.srr0, x.srr1);
+            it.extend(x.gpr.iter().map(|&b| b as i128));
+            p!(x.cr, x.xer, x.lr, x.ctr, x.mq, x.vrsave);
+            it.extend(x.float_save.fpregs.iter().map(|&b| b as i128));
+            p!(x.float_save.fpscr_pad, x.float_save.fpscr);
+            let v = &x.vector_save;
+            for r in v.save_vr.iter() {
+                u128p(*r, it);
+            }
+            u128p(v.save_vscr, it);
+            it.extend(v.save_pad5.iter().map(|&b| b as i128));
+            p!(v.save_vrvalid);
+            it.extend(v.save_pad6.iter().map(|&b| b as i128));
+        }
+        MinidumpRawContext::Ppc64(x) => {
+            p!(x.context_flags, x.srr0, x.srr1);
+            it.extend(x.gpr.iter().map(|&b| b as i128));
+            p!(x.cr, x.xer, x.lr, x.ctr, x.vrsave);
+            it.extend(x.float_save.fpregs.iter().map(|&b| b as i128));
+            p!(x.float_save.fpscr_pad, x.float_save.fpscr);
+            let v = &x.vector_save;
+            for r in v.save_vr.iter() {
+                u128p(*r, it);
+            }
+            u128p(v.save_vscr, it);
+            it.extend(v.save_pad5.iter().map(|&b| b as i128));
+            p!(v.save_vrvalid);
+            it.extend(v.save_pad6.iter().map(|&b| b as i128));
+        }
+        MinidumpRawContext::Sparc(x) => {
+            p!(x.context_flags, x.flag_pad);
+            it.extend(x.g_r.iter().map(|&b| b as i128));
+            p!(x.ccr, x.pc, x.npc, x.y, x.asi, x.fprs);
+            it.extend(x.float_save.regs.iter().map(|&b| b as i128));
+            p!(x.float_save.filler, x.float_save.fsr);
         }
     }
 }
@@ -486,6 +538,123 @@ fn observe(bytes: &[u8]) -> String {
         status(&mc),
         match &mc {
             Ok(m) => vec![misc_obs(&m.raw)],
+            Err(_) => vec![],
+        },
+    ));
+    // Breakpad info
+    let bp = dump.get_stream::<MinidumpBreakpadInfo>();
+    secs.push((
+        status(&bp),
+        match &bp {
+            Ok(b) => vec![vec![
+                b.dump_thread_id.map(|x| x as i128).unwrap_or(-1),
+                b.requesting_thread_id.map(|x| x as i128).unwrap_or(-1),
+            ]],
+            Err(_) => vec![],
+        },
+    ));
+    // assertion info
+    let asr = dump.get_stream::<MinidumpAssertion>();
+    secs.push((
+        status(&asr),
+        match &asr {
+            Ok(a) => {
+                let mut it: Item = vec![];
+                it.extend(a.raw.expression.iter().map(|&x| x as i128));
+                it.extend(a.raw.function.iter().map(|&x| x as i128));
+                it.extend(a.raw.file.iter().map(|&x| x as i128));
+                it.push(a.raw.line as i128);
+                it.push(a.raw._type as i128);
+                for s in [a.expression(), a.function(), a.file()] {
+                    match s {
+                        Some(s) => units(&s, &mut it),
+                        None => it.push(-1),
+                    }
+                }
+                vec![it]
+            }
+            Err(_) => vec![],
+        },
+    ));
+    // thread info list
+    let til = dump.get_stream::<MinidumpThreadInfoList>();
+    secs.push((
+        status(&til),
+        match &til {
+            Ok(l) => l
+                .thread_infos
+                .iter()
+                .map(|t| {
+                    let r = &t.raw;
+                    vec![
+                        r.thread_id as i128,
+                        r.dump_flags as i128,
+                        r.dump_error as i128,
+                        r.exit_status as i128,
+                        r.create_time as i128,
+                        r.exit_time as i128,
+                        r.kernel_time as i128,
+                        r.user_time as i128,
+                        r.start_address as i128,
+                        r.affinity as i128,
+                    ]
+                })
+                .collect(),
+            Err(_) => vec![],
+        },
+    ));
+    // Linux text streams: raw bytes, then (where the reader offers an iterator) its key/value pairs
+    macro_rules! kv_stream {
+        ($t:ty) => {{
+            let st = dump.get_stream::<$t>();
+            secs.push((
+                status(&st),
+                match &st {
+                    Ok(x) => {
+                        let mut items: Vec<Item> = vec![];
+                        let mut it: Item = vec![];
+                        bytes_full(&x.raw_bytes(), &mut it);
+                        items.push(it);
+                        for (k, v) in x.iter() {
+                            let mut it: Item = vec![];
+                            bytes_full(k.as_bytes(), &mut it);
+                            bytes_full(v.as_bytes(), &mut it);
+                            items.push(it);
+                        }
+                        items
+                    }
+                    Err(_) => vec![],
+                },
+            ));
+        }};
+    }
+    kv_stream!(MinidumpLinuxCpuInfo);
+    kv_stream!(MinidumpLinuxProcStatus);
+    kv_stream!(MinidumpLinuxLsbRelease);
+    kv_stream!(MinidumpLinuxEnviron);
+    // maps: the typed reader parses the text line by line (a malformed line is a stream error; C08/C14
+    // cover that parser); here: the bytes get_raw_stream hands to it
+    let maps_raw = dump.get_raw_stream(md::MINIDUMP_STREAM_TYPE::LinuxMaps as u32);
+    secs.push((
+        status(&maps_raw),
+        match &maps_raw {
+            Ok(b) => {
+                let mut it: Item = vec![];
+                bytes_full(b, &mut it);
+                vec![it]
+            }
+            Err(_) => vec![],
+        },
+    ));
+    let lim = dump.get_stream::<MinidumpLinuxProcLimits>();
+    secs.push((
+        status(&lim),
+        match &lim {
+            Ok(x) => {
+                let mut it: Item = vec![];
+                bytes_full(&x.raw_bytes(), &mut it);
+                vec![it]
+            }
             Err(_) => vec![],
         },
     ));
@@ -822,6 +991,63 @@ fn synth_observe(toks: &str) -> String {
             let v = t.ints(9);
             d = d.add_memory_info(synth::MemoryInfo::new(endian, v[0] as u64, v[1] as u64, v[2] as u32, v[4] as u64, v[5] as u32, v[6] as u32, v[7] as u32));
         }
+    }
+    // misc info: not written by this cross-check
+    if t.i() == 1 {
+        let _k = t.i();
+        let n = t.i() as usize;
+        t.ints(n);
+    }
+    // Breakpad info, assertion info, thread info list: hand-assembled sections
+    if t.i() == 1 {
+        let v = t.ints(3);
+        let sec = Section::with_endian(endian).D32(v[0] as u32).D32(v[1] as u32).D32(v[2] as u32);
+        d = d.add_stream(synth::SimpleStream { stream_type: md::MINIDUMP_STREAM_TYPE::BreakpadInfoStream as u32, section: sec });
+    }
+    if t.i() == 1 {
+        let v = t.ints(386);
+        let mut sec = Section::with_endian(endian);
+        for x in &v[..384] {
+            sec = sec.D16(*x as u16);
+        }
+        sec = sec.D32(v[384] as u32).D32(v[385] as u32);
+        d = d.add_stream(synth::SimpleStream { stream_type: md::MINIDUMP_STREAM_TYPE::AssertionInfoStream as u32, section: sec });
+    }
+    if t.i() == 1 {
+        let n = t.i();
+        let mut sec = Section::with_endian(endian).D32(12).D32(64).D32(n as u32);
+        for _ in 0..n {
+            let v = t.ints(10);
+            sec = sec.D32(v[0] as u32).D32(v[1] as u32).D32(v[2] as u32).D32(v[3] as u32);
+            for x in &v[4..] {
+                sec = sec.D64(*x as u64);
+            }
+        }
+        d = d.add_stream(synth::SimpleStream { stream_type: md::MINIDUMP_STREAM_TYPE::ThreadInfoListStream as u32, section: sec });
+    }
+    if t.i() == 1 {
+        let b = t.blob();
+        d = d.set_linux_cpu_info(&b);
+    }
+    if t.i() == 1 {
+        let b = t.blob();
+        d = d.set_linux_proc_status(&b);
+    }
+    if t.i() == 1 {
+        let b = t.blob();
+        d = d.set_linux_lsb_release(&b);
+    }
+    if t.i() == 1 {
+        let b = t.blob();
+        d = d.set_linux_environ(&b);
+    }
+    if t.i() == 1 {
+        let b = t.blob();
+        d = d.set_linux_maps(&b);
+    }
+    if t.i() == 1 {
+        let b = t.blob();
+        d = d.set_linux_proc_limits(&b);
     }
     let bytes = d.finish().expect("synth finish");
     observe(&bytes)
